@@ -208,10 +208,121 @@ class Translator:
         return r
 
     # ---- side conditions
+    _pp_cache = {}
+
+    @staticmethod
+    def _perfect_power(a, m):
+        """radicand a (a rational function of variables / opaque atoms) == c0**m * B**m ?  returns the node c0*B or None.
+        sympy proposes the factorisation, the own normaliser certifies  a - (c0*B)**m == 0  before it is used."""
+        key = (a.id, m)
+        if key in Translator._pp_cache:
+            return Translator._pp_cache[key]
+        res = None
+        try:
+            import sympy as sp
+            back = {}
+
+            def to(n):
+                if n.op == "const":
+                    c = cval(n)
+                    if isinstance(c, QS):
+                        raise ValueError
+                    return sp.Rational(c.numerator, c.denominator)
+                if n.op == "add":
+                    c0, terms = n.args
+                    if isinstance(c0, QS) or any(isinstance(c, QS) for _, c in terms):
+                        raise ValueError
+                    return sp.Rational(c0.numerator, c0.denominator) + sum(sp.Rational(c.numerator, c.denominator) * to(t) for t, c in terms)
+                if n.op == "mul":
+                    out = sp.Integer(1)
+                    for b, e in n.args[0]:
+                        out = out * to(b) ** e
+                    return out
+                sym = sp.Symbol(f"n{n.id}")
+                back[sym] = n
+                return sym
+            if sum(1 for _ in dag.walk([a])) < 400:
+                ex = sp.factor(sp.together(to(a)))
+                c, fs = sp.factor_list(sp.numer(ex))
+                cd, fd = sp.factor_list(sp.denom(ex))
+                c = sp.Rational(c) / sp.Rational(cd)
+                if all(e % m == 0 for _, e in fs + fd) and (fs or fd):
+                    sign = -1 if c < 0 else 1
+                    if not (sign < 0 and m % 2 == 0):
+                        c = abs(c)
+                        rn, rd = sp.integer_nthroot(int(c.p), m), sp.integer_nthroot(int(c.q), m)
+                        if rn[1] and rd[1]:
+                            def frm(e):
+                                e = sp.Poly(e, *sorted(e.free_symbols, key=str)) if e.free_symbols else None
+                                if e is None:
+                                    return None
+                                tot = dag.ZERO
+                                for mon, co in e.terms():
+                                    t = dag.const(Fraction(int(sp.Rational(co).p), int(sp.Rational(co).q)))
+                                    for g, k in zip(e.gens, mon):
+                                        if k:
+                                            t = dag.mul(t, dag.powi(back[g], k))
+                                    tot = dag.add(tot, t)
+                                return tot
+                            B = dag.const(Fraction(sign * int(rn[0]), int(rd[0])))
+                            for f, e in fs:
+                                B = dag.mul(B, dag.powi(frm(f), e // m))
+                            for f, e in fd:
+                                B = dag.mul(B, dag.powi(frm(f), -(e // m)))
+                            from . import poly
+                            if poly.numerator(dag.sub(a, dag.powi(B, m))).is_zero():
+                                res = B
+        except Exception:
+            res = None
+        Translator._pp_cache[key] = res
+        return res
+
+    def _root_lemmas(self):
+        """m-th root of A * B**m (B the perfect-power part of a product radicand): equals root_m(A) * |B| (m even) or root_m(A) * B for B >= 0
+        (m odd), where root_m(A) is an atom that already occurs (or A == 1).  Sound for defined roots; spares nlsat the degree-m reasoning."""
+        out = []
+        for name, lst in list(self.atoms.items()):
+            if not name.startswith("root"):
+                continue
+            m = int(name[4:])
+            byarg = {a.id: v for (v, _, _, a) in lst}
+            for (v, pa, qa, a) in lst:
+                B = self._perfect_power(a, m) if a.op in ("mul", "add") else None
+                if B is not None or a.op != "mul" or not any(abs(e) >= m for _, e in a.args[0]):
+                    if B is not None:
+                        pb, qb = self.rz(B)
+                        sb = pb * qb if not _is1(qb) else pb
+                        out.append(z3.Implies(sb >= 0, v * qb == pb))
+                        if m % 2 == 0:
+                            out.append(z3.Implies(sb < 0, v * qb == -pb))
+                    continue
+                A, B = dag.ONE, dag.ONE
+                for b, e in a.args[0]:
+                    k = e // m if e >= 0 else -((-e) // m)
+                    if k:
+                        B = dag.mul(B, dag.powi(b, k))
+                    if e - k * m:
+                        A = dag.mul(A, dag.powi(b, e - k * m))
+                if B is dag.ONE:
+                    continue
+                if A is dag.ONE:
+                    w = ONE
+                elif A.id in byarg:
+                    w = byarg[A.id]
+                else:
+                    continue
+                pb, qb = self.rz(B)
+                sb = pb * qb if not _is1(qb) else pb
+                out.append(z3.Implies(sb >= 0, v * qb == w * pb))
+                if m % 2 == 0:
+                    out.append(z3.Implies(sb < 0, v * qb == -(w * pb)))
+        return out
+
     def side(self):
         if self._side_cache is not None:
             return self._side_cache
-        out = list(self.axioms) + [d != 0 for d in self.dens]
+        lemmas = self._root_lemmas()
+        out = list(self.axioms) + lemmas + [d != 0 for d in self.dens]
         mono = ("exp", "tanh", "sinh", "log", "arcsinh", "erf", "arctan", "arcsin", "root2", "root3", "root4", "root5", "root6")
         for name, lst in self.atoms.items():
             if len(lst) > 14:
